@@ -35,19 +35,20 @@ RuleOf(l, h, mid, closedNow) ==
   ELSE IF l.failed # 0 \/ (\E x \in closedNow : x \in UNION l.allowed) THEN "NeverToClosed"
   ELSE "ChainRespected"
 
-ClsOf(l, after) ==
+ClsOf(l, after, fullNow) ==
   [ by |-> l.by, closedHit |-> (l.failed # 0), holders |-> Cardinality(l.holders),
-    provs |-> Cardinality(l.provs), identified |-> l.identified, unreg |-> l.unreg, after |-> after ]
+    provs |-> Cardinality(l.provs), identified |-> l.identified, unreg |-> l.unreg, after |-> after,
+    fullHit |-> (l.sel \in fullNow) ]
 
 EdgeRec ==
-  [ cfg |-> [rid |-> cfg.rid, mid |-> cfg.mid],
+  [ cfg |-> [rid |-> cfg0.rid, mid |-> cfg0.mid],
     pre |-> hist,
     act |-> hist'[Len(hist')],
     exp |-> [ delivered |-> [allowed |-> last'.allowed,
                              rule |-> RuleOf(last', hist, hist'[Len(hist')].mid, closed)] ],
     ext |-> [ delivered |-> last'.delivered,
               bound |-> [s \in Ssrcs |-> bySsrc'[s] # 0] ],
-    cls |-> ClsOf(last', "") ]
+    cls |-> ClsOf(last', "", full) ]
 
 \* the transition overwrote or removed something the registry knew
 Destructive ==
@@ -62,15 +63,15 @@ TookPacket == last'.kind = "pkt" /\ last'.by # "none"
 
 \* a probe packet evaluated in the state AFTER the transition, as a compact tuple:
 \*   <<s, pt, rid, mid, allowed outcomes, rule, model outcome, model bound-vector, by, closedHit, holders,
-\*     provs, identified, unreg>>
+\*     provs, identified, unreg, fullHit>>
 ProbeTuple(s, pt, rid, mid) ==
   LET e == PktEffect(s, pt, rid, mid)' IN
   << s, pt, rid, mid, e.last.allowed, RuleOf(e.last, hist', mid, closed'), e.last.delivered,
      [x \in Ssrcs |-> e.bySsrc[x] # 0], e.last.by, e.last.failed # 0, Cardinality(e.last.holders),
-     Cardinality(e.last.provs), e.last.identified, e.last.unreg >>
+     Cardinality(e.last.provs), e.last.identified, e.last.unreg, e.last.sel \in full' >>
 
 ProbeLine ==
-  [ cfg    |-> [rid |-> cfg.rid, mid |-> cfg.mid],
+  [ cfg    |-> [rid |-> cfg0.rid, mid |-> cfg0.mid],
     pre    |-> hist',
     after  |-> hist'[Len(hist')].op,
     probes |-> { ProbeTuple(s, pt, rid, mid) :
